@@ -521,7 +521,9 @@ where
         // C10: every reference gives exactly what it stands for, the rest is copied ...
         Ok(c) => unesc_ok(raw.spec_bytes(), 0, resolve_entity, cow_str_bytes(c))
             // ... and a string without '&' is returned unchanged and borrowed
-            && (first_amp(raw.spec_bytes(), 0) is None ==> c == Cow::<'input, str>::Borrowed(raw)),
+            && (first_amp(raw.spec_bytes(), 0) is None ==> c == Cow::<'input, str>::Borrowed(raw))
+            // ... a borrowed result is the input itself (callers use "borrowed = nothing was replaced")
+            && (c matches Cow::Borrowed(b) ==> b == raw),
         // ... any other reference (zero, surrogate, out of range, signed, empty, unknown name, missing ';') is an error
         Err(_) => unesc_err(raw.spec_bytes(), 0, resolve_entity),
     }
